@@ -77,21 +77,44 @@ def cpu_expression(fn):
 
 
 def io_expression(fn):
-    """the rate computed for one direction in io_statistics: first element of the stored list"""
+    """the rates computed by io_statistics: one (term, free variables, text) per element of the stored list, local
+    assignments inlined whatever their names"""
     tree = function_tree(fn)
     env_nodes = {}
-    target = None
+    elements = None
     for n in ast.walk(tree):
         if isinstance(n, ast.Assign) and isinstance(n.targets[0], ast.Name):
             env_nodes[n.targets[0].id] = n.value
-        if isinstance(n, ast.Assign) and isinstance(n.targets[0], ast.Subscript) and isinstance(n.value, ast.List):
-            target = n.value.elts[0]
-    if target is None:
-        raise NotImplementedError('io_statistics: rate expression not found')
-    tr = Translator()
-    for name in ('in_bytes',):
-        tr.env[name] = tr.visit(env_nodes[name])
-    return tr.visit(target), tr.free, ast.unparse(target)
+        if isinstance(n, ast.Assign) and isinstance(n.targets[0], ast.Subscript) \
+                and isinstance(n.value, (ast.List, ast.Tuple)):
+            elements = n.value.elts
+    if not elements:
+        raise NotImplementedError('io_statistics: rate expressions not found')
+    out = []
+    for elt in elements:
+        tr = LazyTranslator(env_nodes)
+        out.append((tr.visit(elt), tr.free, ast.unparse(elt)))
+    return out
+
+
+class LazyTranslator(Translator):
+    """names assigned from an arithmetic expression in the function are inlined on demand"""
+
+    def __init__(self, nodes):
+        super().__init__()
+        self.nodes = nodes
+        self.active = set()
+
+    def visit_Name(self, node):
+        value = self.nodes.get(node.id)
+        if value is not None and node.id not in self.active and isinstance(value, (ast.BinOp, ast.UnaryOp,
+                                                                                  ast.Constant, ast.Name)):
+            self.active.add(node.id)
+            try:
+                return self.visit(value)
+            finally:
+                self.active.discard(node.id)
+        return super().visit_Name(node)
 
 
 def proc_expression(fn):
